@@ -53,12 +53,22 @@ def generate(rng, tier):
             j = rng.randrange(len(parts))
             if parts[j]:
                 i = rng.randrange(len(parts[j])); kk = rng.random()
-                if kk < 0.4: parts[j][i] = "F"; fam = "fault"
+                if kk < 0.4:
+                    # the data line of request j is the first line of its exchange: delivered before the fault or not
+                    delivered = any(isinstance(e, tuple) for e in parts[j][:i])
+                    parts[j][i] = "F"; fam = "fault"
+                    if reqs[j][0] == "q" and reqs[j][1] is not None:
+                        fault_exp = (exps[j] if delivered else "")       # "the data line belonging to that request, or an empty string when nothing arrived"
+                    else:
+                        fault_exp = None
                 elif kk < 0.55: parts[j][i:] = ["E"] * 205; fam = "silence"
                 elif kk < 0.75: parts[j][i:i] = ["E"] * rng.choice([1, 101]); fam = "late101" 
                 else:
                     if parts[j][i] != "E": parts[j][i] = ("L", "!Err: oops"); fam = "errline"
-                exps = [None] * len(exps) if fam != "conforming" else exps
+                if fam == "fault":
+                    exps = exps[:j] + [fault_exp] + [None] * (len(exps) - j - 1)      # earlier requests stay judged; later ones may be misaligned
+                else:
+                    exps = [None] * len(exps) if fam != "conforming" else exps
         cases.append({"has_port": hp, "reqs": reqs, "events": sum(parts, []), "expect": exps if hp else [None] * len(exps), "family": fam if hp else "no-port"})
     return cases
 
